@@ -363,8 +363,9 @@ def run(run):
             bid = [b_ for b_, t_ in prog.calls(sb) if t_ is t][0]
             for cond, tk, sw in guards(prog, sb, bid):
                 c = strip(cond)
-                loopish = c[0] == "discr" and mentions(c, lambda z: z[0] == "call" and re.search(
-                    r"Iterator>::next$|UnicodeWidthChar>::width$", z[1]))
+                loopish = mentions(c, lambda z: z[0] == "call" and re.search(r"Iterator>::next$|UnicodeWidthChar>::width$", z[1])) and (
+                    c[0] == "discr" or not mentions(c, lambda z: z[0] == "call" and not re.search(
+                        r"Iterator>::next$|UnicodeWidthChar>::width$|IntoIterator>::into_iter$|::chars$|::lines$|deref$", z[1])))
                 if not loopish:
                     extra.append((t, expr_str(c)[:100]))
         if extra:
